@@ -14,6 +14,18 @@ ov, err = ns["overlay_for"](f"{d}/patch.diff")
 if err:
     print("overlay error", err); sys.exit(2)
 print(json.load(open(f"{d}/meta.json")).get("summary", "")[:160])
+verbose = os.environ.get("V")
 for p in props:
+    if verbose:
+        import importlib
+        sys.path.insert(0, "/verif")
+        from sa.engine import Engine
+        from sa.report import Run
+        mod = importlib.import_module(f"rules.{p.lower()}")
+        run = Run(p, "seed"); run.quiet = True
+        mod.run(Engine(None, ov), run)
+        for f in run.findings:
+            print("   ", f.rule, f.function.split(":")[-1], "|", f.statement[:60], "|", f.message[:200])
+        continue
     sid, prop, rules, e = ns["job"]((f"{pid}-{i}", p, ov))
     print(" ", p, "->", rules or e or "-")
